@@ -188,14 +188,76 @@ Proof.
   do 3 eexists. split; [exact H|]. intros Hc. discriminate Hc.
 Qed.
 
-(* D7: nullability change only *)
+(* the D7 witness (nullability change only): since fix b3fae31 status reports the difference *)
 Definition P_nullable : project :=
   mkProject default_config [("user.json", user_table false)] [("0001_init.vespertide.json", init_plan)].
 
-Theorem status_refuted :
-  exists P, cmd_status P = Ok StSync
-            /\ cmd_diff P = Ok (DiffChanges [ModifyColumnNullable "user" "email" false None]).
-Proof. exists P_nullable. split; vm_compute; reflexivity. Qed.
+(* status says "synchronized" iff diff finds nothing *)
+Theorem status_sync_iff_no_diff : forall P,
+  (* the property's direction holds without any side condition *)
+  (cmd_status P = Ok StSync -> cmd_diff P = Ok DiffNone)
+  (* with stored migrations the two commands are the same test *)
+  /\ (forall plans, load_migrations P = Ok plans -> plans <> [] ->
+        (cmd_status P = Ok StSync <-> cmd_diff P = Ok DiffNone)
+        /\ (cmd_status P = Ok StDiffers <-> exists acts, cmd_diff P = Ok (DiffChanges acts))
+        /\ ((exists e, cmd_status P = Err e) <-> (exists e, cmd_diff P = Err e)))
+  (* without stored migrations status never says synchronized: it reports the two special states *)
+  /\ (load_migrations P = Ok [] -> forall models, load_models P = Ok models ->
+        cmd_status P = Ok (if is_nil models then StEmpty else StNoMigrations))
+  (* loader errors are the same error in both *)
+  /\ (forall e, load_models P = Err e \/ (exists m, load_models P = Ok m /\ load_migrations P = Err e) ->
+        cmd_status P = Err e /\ cmd_diff P = Err e).
+Proof.
+  intros P. unfold cmd_status, cmd_diff.
+  destruct (load_models P) as [models|e0].
+  2:{ split; [intros H; discriminate H|]. split; [|split].
+      - intros plans _ _. split; [split; intros H; discriminate H|]. split.
+        + split; [intros H; discriminate H|intros [a H]; discriminate H].
+        + split; intros _; eauto.
+      - intros _ models H. discriminate H.
+      - intros e [H|[m [H _]]]; [inversion H; subst; split; reflexivity|discriminate H]. }
+  destruct (load_migrations P) as [plans|e0].
+  2:{ split; [intros H; discriminate H|]. split; [|split].
+      - intros plans H. discriminate H.
+      - intros H. discriminate H.
+      - intros e [H|[m [_ H]]]; [discriminate H|inversion H; subst; split; reflexivity]. }
+  rewrite plan_next_unfold.
+  destruct plans as [|p0 ps].
+  - (* no stored migration *)
+    change (replay []) with (@Ok schema planner_error []). cbv beta iota.
+    split.
+    { destruct (is_nil models); intros H; discriminate H. }
+    split; [intros plans H Hne; inversion H; subst; contradiction Hne; reflexivity|].
+    split; [intros _ m H; inversion H; subst; reflexivity|].
+    intros e [H|[m [_ H]]]; discriminate H.
+  - destruct (replay (p0 :: ps)) as [baseline|e0].
+    + destruct (diff_actions baseline models) as [acts|e1]; cbn [p_actions].
+      * destruct (is_nil acts) eqn:Hn.
+        { split; [reflexivity|]. split; [|split].
+          - intros plans _ _. split; [split; reflexivity|]. split.
+            + split; [intros H; discriminate H|intros [a H]; discriminate H].
+            + split; intros [e H]; discriminate H.
+          - intros H. discriminate H.
+          - intros e [H|[m [_ H]]]; discriminate H. }
+        { split; [intros H; discriminate H|]. split; [|split].
+          - intros plans _ _. split; [split; intros H; discriminate H|]. split.
+            + split; [intros _; eauto|reflexivity].
+            + split; intros [e H]; discriminate H.
+          - intros H. discriminate H.
+          - intros e [H|[m [_ H]]]; discriminate H. }
+      * split; [intros H; discriminate H|]. split; [|split].
+        { intros plans _ _. split; [split; intros H; discriminate H|]. split.
+          - split; [intros H; discriminate H|intros [a H]; discriminate H].
+          - split; intros _; eauto. }
+        { intros H. discriminate H. }
+        { intros e [H|[m [_ H]]]; discriminate H. }
+    + split; [intros H; discriminate H|]. split; [|split].
+      { intros plans _ _. split; [split; intros H; discriminate H|]. split.
+        - split; [intros H; discriminate H|intros [a H]; discriminate H].
+        - split; intros _; eauto. }
+      { intros H. discriminate H. }
+      { intros e [H|[m [_ H]]]; discriminate H. }
+Qed.
 
 (* ------------------------------------------------------------------ log vs the macro *)
 Lemma validate_files_err : forall fs e, validate_files fs = Err e -> exists f ve, e = ELoadMigration f ve.
@@ -206,7 +268,9 @@ Proof.
   - inversion H; subst e. eauto.
 Qed.
 
-Theorem log_equals_runtime : forall P,
+(* any history, hand-written files included: the two agree up to the loaders' difference (the CLI loader
+   validates every stored plan, the macro's loader does not; the macro normalises the models, log does not read them) *)
+Theorem log_equals_runtime_any_history : forall P,
   (forall es, cmd_log P = Ok (LogEntries es) ->
      macro_blocks P = Ok es \/ exists e, macro_blocks P = Err (MacroModels e))
   /\ (forall es, macro_blocks P = Ok es ->
@@ -229,8 +293,31 @@ Proof.
     + right; right. destruct (validate_files_err _ _ Hv) as [file [ve He]]. subst e. eauto.
 Qed.
 
-(* the two differ exactly where the loaders differ: the CLI loader validates stored plans, the macro's does not
-   (D6: the file below is what `revision` itself writes for nullable -> NOT NULL on a defaulted column) *)
+(* what `log` shows for a list of entries *)
+Definition log_view (es : list log_entry) : log_out := match es with [] => LogNone | _ => LogEntries es end.
+
+(* a history every file of which passes validate_migration_plan (true of what `revision` writes, see
+   HistoryP.revision_output_loadable): log shows exactly what the macro builds, no exception *)
+Theorem log_equals_runtime : forall P,
+  validate_files (pj_migrations P) = Ok tt ->
+  (forall es, macro_blocks P = Ok es -> cmd_log P = Ok (log_view es))
+  /\ (exists es, cmd_log P = Ok (log_view es)
+                 /\ (macro_blocks P = Ok es \/ exists e, macro_blocks P = Err (MacroModels e))).
+Proof.
+  intros P Hv. unfold cmd_log, macro_blocks, load_migrations, macro_load_migrations. rewrite Hv.
+  assert (Hview : forall ps, match ps with
+                             | [] => Ok LogNone
+                             | _ => Ok (LogEntries (incr_walk [] (map (plan_with_prefix (pj_prefix P)) ps)))
+                             end = @Ok log_out cli_error (log_view (incr_walk [] (map (plan_with_prefix (pj_prefix P)) ps)))).
+  { intros [|p r]; reflexivity. }
+  rewrite Hview. split.
+  - intros es. destruct (map_result normalize (map snd (pj_models P))); intros H; [inversion H; reflexivity|discriminate H].
+  - eexists. split; [reflexivity|].
+    destruct (map_result normalize (map snd (pj_models P))) as [ns|e]; [left; reflexivity|right; eauto].
+Qed.
+
+(* the exception in log_equals_runtime_any_history is real for hand-written histories: the file below (an unfilled
+   NOT NULL change; before fix 446c8b4 `revision` itself wrote it) is rejected by log and run by the macro *)
 Definition P_unvalidated : project :=
   mkProject default_config [("user.json", user_table false)]
     [("0001_init.vespertide.json", init_plan);
